@@ -32,8 +32,11 @@ DIM = 32
 WORDS = [w.lower() for w in VOCAB]
 
 
-def _iso(days_ago, secs=0):
+def _iso(days_ago, secs=0, off_min=None):
     t = dtm.datetime.fromtimestamp(NOW_MS / 1000, tz=dtm.timezone.utc) - dtm.timedelta(days=days_ago, seconds=secs)
+    if off_min is not None:
+        # the same instant written with another UTC offset (the window is about instants, not about the text of the stamp)
+        return t.astimezone(dtm.timezone(dtm.timedelta(minutes=off_min))).isoformat()
     return t.isoformat().replace("+00:00", "Z") if secs % 2 == 0 else t.isoformat()
 
 
@@ -45,7 +48,7 @@ def gen_case(rng: random.Random, big=False) -> dict:
         txt = " ".join(rng.choice(VOCAB) for _ in range(rng.randint(1, 5)))
         days = rng.choice([0, 1, recent, recent, max(0, recent - 1), recent + 1, 100, 400, 800])
         e = {"id": f"ep{i}", "owner": rng.choice(["A", "A", "A", "B", "world", "world", "X", ""]), "text": txt,
-             "ts": _iso(days, rng.choice([0, 1, -1, 2, -2, 3600])), "vec": "enc", "aux": {}}
+             "ts": _iso(days, rng.choice([0, 1, -1, 2, -2, 3600, 7200, -7200, 30000, -30000]), rng.choice([None, None, None, 330, -480, 840, -720, 60])), "vec": "enc", "aux": {}}
         r = rng.random()
         if r < 0.05:
             e["id"] = f"ep{rng.randint(0, max(0, n - 1))}"  # duplicate id
